@@ -52,7 +52,7 @@ def hexVal (c : UInt8) : Option Nat :=
   else none
 
 inductive PfSt
-  | n | bs | x0 | x1 (hi : Nat) | pct
+  | n | bs | x0 | x1 (hi : Nat) | o1 (v : Nat) | o2 (v : Nat) | pct
 deriving DecidableEq, Repr
 
 /-- one format byte: next state and the bytes printed -/
@@ -62,6 +62,7 @@ def pfStep (hex : Bool) (st : PfSt) (c : UInt8) : Option (PfSt × Bytes) :=
   | .bs =>
     if c = 92 then some (.n, [92])
     else if c = 120 then (if hex then some (.x0, []) else some (.n, [92, 120]))
+    else if 48 ≤ c.toNat ∧ c.toNat ≤ 55 then some (.o1 (c.toNat - 48), [])      -- \ddd (three octal digits, POSIX)
     else none
   | .x0 => match hexVal c with
     | some a => some (.x1 a, [])
@@ -69,6 +70,8 @@ def pfStep (hex : Bool) (st : PfSt) (c : UInt8) : Option (PfSt × Bytes) :=
   | .x1 a => match hexVal c with
     | some b => some (.n, [UInt8.ofNat (a * 16 + b)])
     | none => none
+  | .o1 v => if 48 ≤ c.toNat ∧ c.toNat ≤ 55 then some (.o2 (v * 8 + (c.toNat - 48)), []) else none
+  | .o2 v => if 48 ≤ c.toNat ∧ c.toNat ≤ 55 then some (.n, [UInt8.ofNat (v * 8 + (c.toNat - 48))]) else none
   | .pct => if c = 37 then some (.n, [37]) else none
 
 def pfGo (hex : Bool) : PfSt → Bytes → Option Bytes
@@ -157,7 +160,8 @@ def step (hex : Bool) (s : St) (c : UInt8) : Option St :=
         -- the inner command must be exactly `printf FORMAT`
         match (finish s).reverse with
         | [p, f] =>
-          if p.bytes = sPrintf ∧ p.op = false ∧ f.op = false then
+          -- a format that starts with `-` is taken for an option by printf ("Illegal option"): not modelled
+          if p.bytes = sPrintf ∧ p.op = false ∧ f.op = false ∧ f.bytes.head? ≠ some 45 then
             match printfFmt hex f.bytes with
             | some out => some ⟨.dq, Word.append ocur (stripNl out), oacc, none⟩
             | none => none
@@ -250,9 +254,15 @@ def escByte (c : UInt8) : Bytes :=
 
 def hasCtl (t : Bytes) : Bool := t.any (fun c => c.toNat < 32)
 
+/-- the printf format for a text: every character through `printf_escapes`, a leading `-` spelled `\055` -/
+def escText (t : Bytes) : Bytes :=
+  match t with
+  | c :: r => if c = 45 then [92, 48, 53, 53] ++ r.flatMap escByte else (c :: r).flatMap escByte
+  | [] => []
+
 /-- `request_content_for_console` on a decodable text -/
 def contentForConsole (t : Bytes) : Bytes :=
-  if hasCtl t then [34, 36, 40, 112, 114, 105, 110, 116, 102, 32] ++ Sh.quote (t.flatMap escByte) ++ [41, 34]
+  if hasCtl t then [34, 36, 40, 112, 114, 105, 110, 116, 102, 32] ++ Sh.quote (escText t) ++ [41, 34]
   else Sh.quote t
 
 def decBytes (n : Nat) : Bytes := (toString n).toUTF8.toList
@@ -319,24 +329,33 @@ structure Curl where
   urls : List Bytes := []
 deriving DecidableEq, Repr
 
-def decodeCurlArgs : List Bytes → Curl → Option Curl
-  | [], c => some c
-  | a :: r, c =>
-    if a = sH then match r with
-      | v :: r' => decodeCurlArgs r' { c with headers := c.headers ++ [v] }
-      | [] => none
-    else if a = sX then match r with
-      | v :: r' => decodeCurlArgs r' { c with method := some v }
-      | [] => none
-    else if a = sD then match r with
-      | v :: r' => decodeCurlArgs r' { c with data := some v }
-      | [] => none
-    else if a = sResolve then match r with
-      | v :: r' => decodeCurlArgs r' { c with resolve := c.resolve ++ [v] }
-      | [] => none
-    else if a = sCompressed then decodeCurlArgs r { c with compressed := true }
+/-- an option waiting for its value -/
+inductive Pend
+  | none | H | X | D | R
+deriving DecidableEq, Repr
+
+def decStep (st : Pend) (c : Curl) (a : Bytes) : Option (Pend × Curl) :=
+  match st with
+  | .H => some (.none, { c with headers := c.headers ++ [a] })
+  | .X => some (.none, { c with method := some a })
+  | .D => some (.none, { c with data := some a })
+  | .R => some (.none, { c with resolve := c.resolve ++ [a] })
+  | .none =>
+    if a = sH then some (.H, c)
+    else if a = sX then some (.X, c)
+    else if a = sD then some (.D, c)
+    else if a = sResolve then some (.R, c)
+    else if a = sCompressed then some (.none, { c with compressed := true })
     else if a.head? = some 45 then none                 -- an option the exporter never emits
-    else decodeCurlArgs r { c with urls := c.urls ++ [a] }
+    else some (.none, { c with urls := c.urls ++ [a] })
+
+def decodeCurlArgs : List Bytes → Pend → Curl → Option Curl
+  | [], .none, c => some c
+  | [], _, _ => none
+  | a :: r, st, c =>
+    match decStep st c a with
+    | some (st', c') => decodeCurlArgs r st' c'
+    | none => none
 
 /-- the request curl sends: method (`-X`, else POST with `-d`, else GET), url, `-H` lines, data -/
 def Curl.effMethod (c : Curl) : Bytes :=
@@ -346,7 +365,7 @@ def Curl.effMethod (c : Curl) : Bytes :=
 
 def decodeCurl (argv : List Bytes) : Option Curl :=
   match argv with
-  | _ :: r => decodeCurlArgs r {}
+  | _ :: r => decodeCurlArgs r .none {}
   | [] => none
 
 /-! ## raw export -/
